@@ -57,7 +57,6 @@ func Forget(p *core.Prog) {
 	lockReleasers = map[*ssa.Function]map[string]bool{}
 	upsertBodyCache = map[*dstate]map[*ssa.Function]bool{}
 	stampCache = map[*dstate]*stampFns{}
-	modOnly = nil
 	core.Forget(p)
 	if theProg == p {
 		theProg = nil
